@@ -138,11 +138,11 @@ class History(RuleBasedStateMachine):
                     fh.write(f"{t['date']},{t['description']},{t['amount']!r},{f.get('memo', '').replace(',', ' ')},{f.get('type', '').replace(',', ' ')}\n")
 
     # ---- operations
-    @rule(i=st.integers(0, 4), mode=st.sampled_from(['first_match', 'first_match', 'most_specific']))
-    def load(self, i, mode):
+    @rule(i=st.integers(0, 4), mode=st.sampled_from(['first_match', 'first_match', 'most_specific']), order=st.sampled_from(['rules_first', 'transforms_first', 'transforms_first']))
+    def load(self, i, mode, order):
         i %= len(self.files)
-        self.steps.append(['load', i, mode])
-        res = histops.do_load(self.state, self.path(i), mode)
+        self.steps.append(['load', i, mode, order])
+        res = histops.do_load(self.state, self.path(i), mode, order)
         kind = self.files[i]['kind']
         if self.loads:
             prev = self.loads[-1]
@@ -171,8 +171,9 @@ class History(RuleBasedStateMachine):
         with open(self.path(i), 'w', encoding='utf-8') as fh:
             fh.write(text)
         # the user re-runs: the file is loaded again
-        self.steps.append(['load', i, 'first_match'])
-        histops.do_load(self.state, self.path(i), 'first_match')
+        order = data.draw(st.sampled_from(['rules_first', 'transforms_first', 'transforms_first']))
+        self.steps.append(['load', i, 'first_match', order])
+        histops.do_load(self.state, self.path(i), 'first_match', order)
         self.loads.append((self.files[i]['kind'], i))
         self.classes.add('same_path_rewrite')
 
@@ -296,7 +297,7 @@ def run_history(case):
 
     for s in case['steps']:
         if s[0] == 'load':
-            histops.do_load(state, path(s[1]), s[2])
+            histops.do_load(state, path(s[1]), s[2], s[3] if len(s) > 3 else 'rules_first')
         elif s[0] == 'rewrite':
             with open(path(s[1]), 'w', encoding='utf-8') as fh:
                 fh.write(s[2])
